@@ -154,3 +154,9 @@ m('c18-neighbour-plus2', 'C18', EN, 'j + 1 < significant_tokens_indices.len()\n 
 m('c18-mark-zero-too', 'C18', EN, 'if tokens[i].text_lowercase() == "o" {', 'if tokens[i].text_lowercase() == "o" || tokens[i].text_lowercase() == "zero" {', 'A-O-ANNOTATE')
 m('c18-o-own-arm', ['C18', 'C16'], EN, '"zero" | "o" | "nought" => b.put(b"0"),\n            "one"', '"zero" | "nought" => b.put(b"0"),\n            "o" if b.is_null() => b.put(b"0"),\n            "one"', 'A')
 m('c18-skip-punctuation', 'C18', EN, 'if !t.text_lowercase().chars().all(|c| c.is_whitespace()) {', 'if !t.text_lowercase().chars().all(|c| c.is_whitespace() || c == \',\') {', 'A-O-ANNOTATE')
+# --- added after seeded round 1
+m('c01-en-five-overstrict', 'C01', EN, '"five" | "fifth" if b.peek(2) != b"10" => b.put(b"5"),', '"five" | "fifth" if b.peek(2) != b"10" && b.peek(1) != b"0" => b.put(b"5"),', 'A1c-COMPOSE')
+m('c01-es-mil-01', 'C01', ES, '                if peek == b"1" {\n                    Err(Error::Overlap)\n                } else {\n                    b.shift(3)', '                if peek == b"1" || peek == b"01" {\n                    Err(Error::Overlap)\n                } else {\n                    b.shift(3)', 'A1b-SCALE')
+m('c04-en-group-no-marker', 'C04', EN, '                    if ds.marker.is_ordinal() {\n                        b.marker = ds.marker;\n                        b.freeze()\n                    }', '                    if ds.marker.is_ordinal() {\n                        b.freeze()\n                    }', 'A2b-GROUP')
+m('c04-it-group-no-freeze', 'C04', IT, '                    if marker.is_ordinal() {\n                        b.marker = marker;\n                        b.freeze()\n                    }', '                    if marker.is_ordinal() {\n                        b.marker = marker;\n                    }', 'A2b-GROUP')
+m('c08-fr-unsix-31', 'C08', FR, 'const UN_SIX = 63;// all previous OR\'ed', 'const UN_SIX = 31;// all previous OR\'ed', 'A7b-BLOCK')
